@@ -117,6 +117,25 @@ tp('batch_pub', ['PUBN2(11,22);CLOSE()', 'auto c = t->subscribe();CONS2();CONS1(
 tp('two_publishers', ['PUB(11)', 'PUB(22)', 'AWAIT(0);AWAIT(1);CLOSE()' , 'auto c = t->subscribe();CONS1();CONS1();CONS1()'],
    'vf_check(ngot[3]==2 && got[3][0]+got[3][1]==33 && got[3][0]!=got[3][1] && ended[3]==1, 1)', extra=['VF_T0=PUB(11);SIGNAL(0)', 'VF_T1=PUB(22);SIGNAL(1)'])
 
+# ----------------------------------------------------------------------------------------------- C16: execution queue
+def eq(name, ts, final, mode=0, cap=2, extra=(), **kw):
+    S('eq_' + name, 'execq/eq.cpp', {'assert': 'C16'}, defs=['VF_MODE=%d' % mode, 'VF_CAP=%d' % cap] + ['VF_T%d=%s' % (i, t) for i, t in enumerate(ts)] + ['VF_FINAL=' + final] + list(extra),
+      extra=['babylon/basic_executor.cpp'], **kw)
+ALL3 = 'vf_check(nconsumed==3, 1); { uint64_t m = 0; for (int i = 0; i < 3; ++i) m |= 1ull << (consumed[i] & 7); vf_check(m == 0xe, 3); }'
+ORD12 = '{ int p1 = -1, p2 = -1; for (int i = 0; i < 3; ++i) { if (consumed[i] == 1) p1 = i; if (consumed[i] == 2) p2 = i; } vf_check(p1 < p2, 4); }'
+ALL2 = 'vf_check(nconsumed==2 && consumed[0]+consumed[1]==3 && consumed[0]!=consumed[1], 1);'
+TH = ('thorough',)
+eq('inline_one', ['EXEC(0,1)'], 'vf_check(nconsumed==1 && consumed[0]==1, 1)')
+eq('inline_1x1', ['EXEC(0,1)', 'EXEC(0,2)'], ALL2)
+eq('parked_1x1', ['EXEC(0,1)', 'RUN_PARKED(0)', 'EXEC(0,2)'], ALL2, mode=1)
+eq('refused_1x1', ['EXEC(0,1)', 'EXEC(0,2)'], 'if (ret[0][0]==0 && ret[1][0]==0) {' + ALL2 + '}', mode=2, tiers=TH, timeout=3600)
+eq('refused_seq', ['EXEC(0,1);EXEC(1,2)'], 'if (ret[0][1]==0) {' + ALL2 + ' vf_check(consumed[0]==1, 4); }', mode=2, tiers=TH, timeout=3600)
+eq('join_1', ['EXEC(0,1);SIGNAL(0)', 'RUN_PARKED(0)', 'AWAIT(0);JOIN_THEN_CHECK(1)'], 'vf_check(nconsumed==1, 1)', mode=1, tiers=TH, timeout=3600)
+eq('inline_two_seq', ['EXEC(0,1);EXEC(1,2)'], ALL2 + 'vf_check(consumed[0]==1, 4);', tiers=TH)
+eq('inline_two_producers', ['EXEC(0,1);EXEC(1,2)', 'EXEC(0,3)'], ALL3 + ORD12, tiers=TH, timeout=3600)
+eq('parked_consumer', ['EXEC(0,1);EXEC(1,2)', 'RUN_PARKED(0)', 'EXEC(0,3)'], ALL3 + ORD12, mode=1, tiers=TH, timeout=3600)
+eq('refused_race', ['EXEC(0,1);EXEC(1,2)', 'EXEC(0,3)'], 'if ((ret[0][1]==0 && ret[1][0]==0)) {' + ALL3 + ORD12 + '}', mode=2, tiers=TH, timeout=3600)
+
 # ----------------------------------------------------------------------------------------------- manifest texts
 LEVEL_TEXT = {
  'C01': 'Real ConcurrentBoundedQueue<two-word payload, VS> IR; client programs of 2-4 threads mixing push/pop/try_/push_n/pop_n/callback variants on capacities 1-2; oracle = exactly-once multiset, per-thread FIFO, fully published payload, try_ success when sequenced after enough completed operations.',
